@@ -28,7 +28,7 @@
 EXTENDS Naturals, Sequences, FiniteSets, TLC, SequencesExt
 
 CONSTANTS Funcs,          \* function names
-          Kind,           \* f -> "plain" | "gen" | "coro"
+          Kind,           \* f -> "plain" | "gen" | "coro" | "agen"  (agen = async generator: it both yields and awaits)
           Wanted,         \* f -> BOOLEAN: admitted by the code filter and resolvable by get_func
           Vals,           \* value tokens
           MaxFrames,      \* bound on the number of frames ever created
@@ -39,10 +39,12 @@ CONSTANTS Funcs,          \* function names
           Dev_ReturnConst,   \* handle_return does not recognise RETURN_CONST: return type stays absent
           Dev_AwaitIsYield,  \* a coroutine suspending on an await is recorded as a yield of what the awaitable yielded
           Dev_ThrowIsYield,  \* an exception thrown into a suspended generator is recorded as `yield None`; never logged; residue
-          Dev_Resample       \* the sampling draw is repeated on every call event (every resume), not once per call
+          Dev_Resample,      \* the sampling draw is repeated on every call event (every resume), not once per call
+          Dev_AgenWrapped    \* async generators: a yield is seen as its interpreter-internal wrapper object, an await as `yield None`
 
 ABSENT == "ABSENT"
 NoneTok == "none"
+WrapTok == "agwrap"      \* the type of CPython's async_generator_wrapped_value
 
 VARIABLES fr,       \* Seq of [f, st, entry, cur, ys, dg, dc]    st \in {"new","run","susp","done","dropped"}
                     \* dg = the frame this one delegates to (`yield from` / `await`), 0 if none; dc = does the
@@ -152,7 +154,7 @@ Call(f, v, catch, draw) ==
 Resume(id, catch, draw) ==
   /\ CanAct /\ id \in 1..Len(fr) /\ fr[id].st \in {"new", "susp"}
   /\ ~IsLiveChild(id)                              \* a delegate is driven through its delegator
-  /\ (Kind[fr[id].f] = "coro" => ~Running)        \* coroutines are driven by the driver
+  /\ (Kind[fr[id].f] \in {"coro", "agen"} => ~Running)        \* coroutines and async generators are driven by the driver
   /\ LET ch == ChainOf(id) IN
      /\ fr' = [j \in 1..Len(fr) |-> IF j \in ToSet(ch) THEN [fr[j] EXCEPT !.st = "run"] ELSE fr[j]]
      /\ stack' = stack \o [j \in 1..Len(ch) |-> [id |-> ch[j], catch |-> IF j = 1 THEN catch ELSE fr[ch[j]].dc]]
@@ -173,22 +175,24 @@ Delegate(id, catch, draw) ==
 
 \* the running generator yields v: every frame of the chain it ends is suspended and has yielded v
 Yield(v) ==
-  /\ Running /\ fr[Top].st = "run" /\ Kind[fr[Top].f] = "gen"
+  /\ Running /\ fr[Top].st = "run" /\ Kind[fr[Top].f] \in {"gen", "agen"}
   /\ LET ch == TopChain IN
      /\ fr' = [j \in 1..Len(fr) |-> IF j \in ToSet(ch) THEN [fr[j] EXCEPT !.st = "susp", !.ys = @ \cup {v}] ELSE fr[j]]
      /\ stack' = SubSeq(stack, 1, Len(stack) - Len(ch))
-     /\ Commit(OnReturnAll(Cur, ch, "YIELD_VALUE", v))
+     \* (an async generator hands the interpreter a wrapper around the value)
+     /\ Commit(OnReturnAll(Cur, ch, "YIELD_VALUE", IF Kind[fr[Top].f] = "agen" /\ Dev_AgenWrapped THEN WrapTok ELSE v))
      /\ hist' = Append(hist, [op |-> "Yield", f |-> fr[Top].f, id |-> Top, v |-> v, catch |-> TRUE, draw |-> 0, ch |-> ch])
   /\ UNCHANGED truth
 
 \* a coroutine really suspends on an awaitable (which yields None to the driver); not a yield.  Every coroutine
 \* of the await chain is suspended with it.
 AwaitSuspend ==
-  /\ Running /\ fr[Top].st = "run" /\ Kind[fr[Top].f] = "coro"
+  /\ Running /\ fr[Top].st = "run" /\ Kind[fr[Top].f] \in {"coro", "agen"}
   /\ LET ch == TopChain IN
      /\ fr' = [j \in 1..Len(fr) |-> IF j \in ToSet(ch) THEN [fr[j] EXCEPT !.st = "susp"] ELSE fr[j]]
      /\ stack' = SubSeq(stack, 1, Len(stack) - Len(ch))
-     /\ Commit(IF Dev_AwaitIsYield THEN OnReturnAll(Cur, ch, "YIELD_VALUE", NoneTok) ELSE Cur)
+     /\ Commit(IF Dev_AwaitIsYield \/ (Kind[fr[Top].f] = "agen" /\ Dev_AgenWrapped)
+               THEN OnReturnAll(Cur, ch, "YIELD_VALUE", NoneTok) ELSE Cur)
      /\ hist' = Append(hist, [op |-> "Await", f |-> fr[Top].f, id |-> Top, v |-> NoneTok, catch |-> TRUE, draw |-> 0, ch |-> ch])
   /\ UNCHANGED truth
 
@@ -198,6 +202,7 @@ Return(how, v) ==
   /\ Running /\ fr[Top].st = "run"
   /\ (how = "implicit" => v = NoneTok)
   /\ (how = "const" => v = "int")               \* the fixtures' literal is `return 1`
+  /\ (Kind[fr[Top].f] = "agen" => how = "implicit")   \* an async generator cannot return a value
   /\ fr' = [fr EXCEPT ![Top].st = "done"]
   /\ stack' = SubSeq(stack, 1, Len(stack) - 1)
   /\ truth' = AddTruth(truth, Top, RetVal(how, v))
@@ -226,7 +231,7 @@ Raise ==
 
 \* the body rebinds its parameter (only interesting for frames that will be resumed)
 Rebind(v) ==
-  /\ Running /\ fr[Top].st = "run" /\ Kind[fr[Top].f] \in {"gen", "coro"} /\ fr[Top].cur # v
+  /\ Running /\ fr[Top].st = "run" /\ Kind[fr[Top].f] \in {"gen", "coro", "agen"} /\ fr[Top].cur # v
   /\ fr' = [fr EXCEPT ![Top].cur = v]
   /\ hist' = Append(hist, [op |-> "Rebind", f |-> fr[Top].f, id |-> Top, v |-> v, catch |-> TRUE, draw |-> 0, ch |-> <<>>])
   /\ UNCHANGED <<stack, truth, traces, skipped, logged>>
